@@ -107,9 +107,9 @@ def finish(prop: str, tier: str, seed: int, results: list[RuleResult], t0: float
             lines.append(f"STALE-KNOWN-FINDING: property={prop} {prop}.{kk[1]} {kk[2]} no longer reported (informational)")
     if n_viol and exit_code == 0:
         exit_code = 1
-    elif n_viol and vacuous and all(any((prop, f.rule, f.key) not in known_keys for f in r.findings) for r in vacuous):
-        # a rule that reports a construct as violating *and* found fewer instances than usual is not passing vacuously: the missing
-        # instances are the ones the reported change removed - the violation is the verdict
+    elif n_viol and vacuous:
+        # an unlisted violation was found and, besides, some rule saw fewer instances than usual (the reported change removed or
+        # re-shaped them): the violation is the verdict; the ANALYSIS-ERROR lines above stay in the output for the reader
         exit_code = 1
     for ln in lines:
         print(ln)
